@@ -22,14 +22,17 @@ Proof.
   destruct e; cbn [wait_loop wait_one is_cont ev_pid]; destruct (memZ _ pids); reflexivity.
 Qed.
 
+Definition cmd_ok (x : cmd) : bool := match x with CFg _ _ | CBg _ _ => false | _ => true end.
+
+(** a session action without fg / bg *)
 Definition no_fgbg (a : action) : bool :=
-  match a with AFg _ _ | ABg _ _ => false | _ => true end.
+  match cmds_of a with Some l => forallb cmd_ok l | None => true end.
 
 Definition Sim (s : st) : Prop :=
-  r_pend (Jobs.run (gh s)) = [] /\
+  r_pend (Jobs.run (gh s)) = [] /\ forallb cmd_ok (rest_of (md s)) = true /\
   match md s with
-  | AtPrompt => shl (k s) = r_sh (Jobs.run (gh s))
-  | Waiting gid pids settled v =>
+  | AtPrompt | Between _ => shl (k s) = r_sh (Jobs.run (gh s))
+  | Waiting gid pids settled v _ =>
       pids <> [] /\ exists status, forall q,
         wl (wevs s ++ q) (r_sh (Jobs.run (gh s))) gid pids [] 0 = wl q (shl (k s)) gid pids settled status
   end.
@@ -49,16 +52,22 @@ Proof.
   - destruct (drain (S (length (procs k0))) (procs k0)) as [q ps]. cbn. auto.
 Qed.
 
-Lemma eol_sim k0 ow g :
-  shl k0 = r_sh (Jobs.run g) -> r_pend (Jobs.run g) = [] -> Sim (end_of_line k0 ow g).
+Lemma eol_sim k0 ow m g :
+  shl k0 = r_sh (Jobs.run g) -> r_pend (Jobs.run g) = [] -> Sim (end_of_line k0 ow m g).
 Proof.
   intros E P. destruct (poll_sim true k0 g E P) as [A B].
-  unfold Sim, end_of_line; cbn. split; auto.
+  unfold Sim, end_of_line; cbn. auto.
 Qed.
 
-Lemma finish_sim c k0 v ow g :
-  shl k0 = r_sh (Jobs.run g) -> r_pend (Jobs.run g) = [] -> Sim (finish c k0 v ow g).
-Proof. intros. unfold finish. apply eol_sim; auto. Qed.
+Lemma next_sim k0 ow m g rest :
+  shl k0 = r_sh (Jobs.run g) -> r_pend (Jobs.run g) = [] -> forallb cmd_ok rest = true -> Sim (next k0 ow m g rest).
+Proof. intros. unfold Sim, next; cbn. auto. Qed.
+
+Lemma finish_sim c k0 v ow m g rest :
+  shl k0 = r_sh (Jobs.run g) -> r_pend (Jobs.run g) = [] -> forallb cmd_ok rest = true -> Sim (finish c k0 v ow m g rest).
+Proof.
+  intros. unfold finish. destruct (match v with VFg => true | VLaunch tg => tg end); cbn; apply next_sim; auto.
+Qed.
 
 Lemma wait_body_shl k0 gid pids w e :
   shl (fst (wait_body k0 gid pids w e)) = fst (wait_one (shl k0) gid pids w e) /\
@@ -71,8 +80,8 @@ Proof. intro N. unfold wait_fg_job, wl. destruct pids; [contradiction | reflexiv
 Lemma settle_sim c fuel : forall s, Sim s -> Sim (settle c fuel s).
 Proof.
   induction fuel as [|f IH]; intros s H; cbn [settle]; auto.
-  destruct (md s) as [|gid pids w v] eqn:M; auto.
-  destruct H as [P H]. rewrite M in H. destruct H as [NE [status H]].
+  destruct (md s) as [| |gid pids w v rest] eqn:M; auto.
+  destruct H as [P [R H]]. rewrite M in H, R. cbn [rest_of] in R. destruct H as [NE [status H]].
   destruct (next_status (procs (k s))) as [[e ps]|].
   - pose proof (wait_body_shl (set_procs (k s) ps) gid pids w e) as [WB1 WB2].
     destruct (wait_body (set_procs (k s) ps) gid pids w e) as [k' w']. cbn [fst snd set_procs shl] in WB1, WB2.
@@ -80,14 +89,14 @@ Proof.
     destruct (wait_one (shl (k s)) gid pids w e) as [s' w''] eqn:W1. cbn [fst snd] in WB1, WB2. subst w''.
     destruct (negb (is_cont e) && (length pids <=? length w')%nat) eqn:FIN.
     + apply andb_true_iff in FIN as [F1 F2]. apply negb_true_iff in F1.
-      apply finish_sim.
+      apply finish_sim; auto.
       * rewrite run_snoc. cbn [Jobs.step]. rewrite P. cbn [app].
         rewrite wait_fg_nonempty by exact NE. rewrite (H [e]).
         unfold wl. rewrite WC, W1. cbv beta iota zeta. rewrite F1, F2. cbn. exact WB1.
       * rewrite run_snoc. cbn [Jobs.step]. rewrite P. cbn [app].
         rewrite wait_fg_nonempty by exact NE. rewrite (H [e]).
         unfold wl. rewrite WC, W1. cbv beta iota zeta. rewrite F1, F2. reflexivity.
-    + apply IH. split; [exact P|]. cbn [md k gh wevs]. split; [exact NE|].
+    + apply IH. split; [exact P|]. cbn [md k gh wevs rest_of]. split; [exact R|]. split; [exact NE|].
       destruct (is_cont e) eqn:IC.
       * exists status. intro q. rewrite <- app_assoc. cbn [app]. rewrite (H (e :: q)).
         unfold wl. rewrite WC, W1. cbv beta iota zeta. rewrite WB1. reflexivity.
@@ -96,46 +105,63 @@ Proof.
         intro q. rewrite <- app_assoc. cbn [app]. rewrite (H (e :: q)).
         unfold wl. rewrite WC, W1. cbv beta iota zeta. rewrite FIN. rewrite WB1. reflexivity.
   - destruct (all_gone (procs (k s))).
-    + apply finish_sim.
+    + apply finish_sim; auto.
       * rewrite run_snoc. cbn [Jobs.step]. rewrite P. cbn [app].
         rewrite wait_fg_nonempty by exact NE. specialize (H []). rewrite app_nil_r in H. rewrite H. reflexivity.
       * rewrite run_snoc. cbn [Jobs.step]. rewrite P. cbn [app].
         rewrite wait_fg_nonempty by exact NE. specialize (H []). rewrite app_nil_r in H. rewrite H. reflexivity.
-    + split; [exact P|]. rewrite M. split; [exact NE|]. exists status. exact H.
+    + split; [exact P|]. rewrite M. cbn [rest_of]. split; [exact R|]. split; [exact NE|]. exists status. exact H.
 Qed.
 
-Lemma kernel_sim c s f : Sim s -> Sim (kernel c s f).
-Proof. intro H. unfold kernel, settle_all. apply settle_sim. exact H. Qed.
+(** a command starts from a state whose shell value is C06's *)
+Definition PreS (s : st) : Prop := shl (k s) = r_sh (Jobs.run (gh s)) /\ r_pend (Jobs.run (gh s)) = [].
 
-Lemma clear_sim s : Sim s -> Sim (clear s).
-Proof. intro H. exact H. Qed.
-
-Lemma launch_sim c s pids bg : md s = AtPrompt -> Sim s -> Sim (launch c s pids bg).
+Lemma launch_sim c s pids bg rest : PreS s -> forallb cmd_ok rest = true -> Sim (launch c s pids bg rest).
 Proof.
-  intros M [P H]. rewrite M in H. unfold launch. destruct pids as [|p0 rest]; [split; [exact P | rewrite M; exact H]|].
-  set (sh' := if c_isatty c then mksh (Jobs.launch (ctab (k s)) p0 (p0 :: rest) bg) (mp (shl (k s))) else shl (k s)).
-  set (g := if c_isatty c then gh s ++ [Launch p0 (p0 :: rest) bg] else gh s).
+  intros [H P] R. unfold launch. destruct pids as [|p0 r]; [apply next_sim; auto|].
+  destruct (if c_hasterm c && c_isatty c && negb bg then _ else _) as [[tg ow] m].
+  set (sh' := if c_isatty c then mksh (Jobs.launch (ctab (k s)) p0 (p0 :: r) bg) (mp (shl (k s))) else shl (k s)).
+  set (g := if c_isatty c then gh s ++ [Launch p0 (p0 :: r) bg] else gh s).
   assert (E : sh' = r_sh (Jobs.run g) /\ r_pend (Jobs.run g) = []).
   { unfold sh', g. destruct (c_isatty c); [|auto].
     rewrite run_snoc. cbn [Jobs.step r_sh r_pend]. unfold ctab. rewrite H. auto. }
   destruct E as [E1 E2].
   destruct bg.
-  - apply eol_sim; auto.
+  - apply next_sim; auto.
   - unfold enter_wait. unfold settle_all. apply settle_sim.
-    split; [exact E2|]. cbn [md k gh wevs shl]. split; [discriminate|].
+    split; [exact E2|]. cbn [md k gh wevs shl rest_of]. split; [exact R|]. split; [discriminate|].
     exists 0. intro q. cbn [app]. rewrite <- E1. reflexivity.
 Qed.
 
+Lemma exec_sim c s x rest : cmd_ok x = true -> PreS s -> forallb cmd_ok rest = true -> Sim (exec c s x rest).
+Proof.
+  intros A [H P] R. destruct x; try discriminate A; cbn [exec].
+  - apply launch_sim; auto. split; auto.
+  - unfold do_jobs. destruct (ctab (k s)).
+    + apply next_sim; auto.
+    + destruct (poll_sim false (k s) (gh s) H P) as [A1 A2]. apply next_sim; auto.
+  - apply next_sim; auto.
+Qed.
+
+Lemma drive_sim c fuel : forall s, Sim s -> Sim (drive c fuel s).
+Proof.
+  induction fuel as [|f IH]; intros s H; cbn [drive]; auto.
+  destruct (md s) as [|[|x r]| ] eqn:M; auto.
+  - destruct H as [P [R H]]. rewrite M in H. apply eol_sim; auto.
+  - destruct H as [P [R H]]. rewrite M in H, R. cbn in R. apply andb_true_iff in R as [R1 R2].
+    apply IH. apply exec_sim; auto. split; auto.
+Qed.
+
+Lemma kernel_sim c s f : Sim s -> Sim (kernel c s f).
+Proof. intro H. unfold kernel, drive_all, settle_all. apply drive_sim, settle_sim. exact H. Qed.
+
 Lemma step_sim c s a : no_fgbg a = true -> Sim s -> Sim (step c s a).
 Proof.
-  intros A H. destruct a; try discriminate A; cbn [step]; unfold typed, key;
-    destruct (md s) eqn:M; try (apply clear_sim; exact H); try (apply kernel_sim; exact H).
-  - apply launch_sim; auto.
-  - destruct H as [P H]. rewrite M in H. unfold do_jobs. destruct (ctab (quiet (k s))).
-    + apply eol_sim; auto.
-    + destruct (poll_sim false (quiet (k s)) (gh s) H P) as [A1 A2]. apply eol_sim; auto.
-  - destruct H as [P H]. rewrite M in H. apply eol_sim; auto.
-  - destruct H as [P H]. rewrite M in H. apply eol_sim; auto.
+  intros A H. unfold step. unfold no_fgbg in A. destruct (cmds_of a) as [l|] eqn:CM.
+  - unfold typed_line. destruct (md s) eqn:M; try exact H.
+    unfold drive_all. apply drive_sim. destruct H as [P [R H]]. rewrite M in H.
+    split; [exact P|]. cbn [md rest_of k shl gh quiet]. auto.
+  - destruct a; try discriminate CM; auto; try (unfold key; destruct (md s); try exact H); apply kernel_sim; exact H.
 Qed.
 
 Lemma fold_sim c acts : forallb no_fgbg acts = true -> forall s, Sim s -> Sim (fold_left (step c) acts s).
@@ -146,7 +172,7 @@ Qed.
 
 (** the shell value of the session is C06's model run on the projected history *)
 Theorem sim c acts : forallb no_fgbg acts = true -> Sim (Term.run c acts).
-Proof. intro A. apply fold_sim; auto. split; reflexivity. Qed.
+Proof. intro A. apply fold_sim; auto. repeat split; reflexivity. Qed.
 
 (** ---------- prefixes of valid histories are valid *)
 Lemma valid_from_app a : forall v b, valid_from v (a ++ b) = valid_from v a && valid_from (fold_left vnext a v) b.
@@ -221,12 +247,13 @@ Theorem jobs_prints c pre :
   filter is_line (outs (k (Term.step c s AJobs))) = map job_line (tab (r_sh (Jobs.run hj))) /\
   r_pend (Jobs.run hj) = [].
 Proof.
-  intros A M NE s hj. destruct (sim c pre A) as [P H]. rewrite M in H. fold s in P, H. fold s in M.
+  intros A M NE s hj. destruct (sim c pre A) as [P [_ H]]. rewrite M in H. fold s in P, H. fold s in M.
   destruct (poll_sim false (quiet (k s)) (gh s) H P) as [E1 E2]. fold hj in E1, E2.
   split; [|exact E2].
-  cbn [Term.step]. unfold typed. rewrite M. unfold do_jobs.
+  unfold Term.step. cbn [cmds_of]. unfold typed_line. rewrite M. unfold drive_all.
+  cbn [md rest_of length drive exec]. unfold do_jobs. cbn [k owner smask gh].
   destruct (ctab (quiet (k s))) eqn:T; [exact (False_ind _ (NE T))|].
-  unfold end_of_line. cbn [k outs].
+  unfold next. cbn [drive md]. unfold end_of_line. cbn [k outs owner smask gh].
   set (k1 := poll false (quiet (k s))) in *.
   assert (O1 : filter is_line (outs k1) = []) by (apply poll_outs_nl; reflexivity).
   unfold poll. destruct (poll_evs (say k1 (map job_line (ctab k1)))) as [q ps].
